@@ -197,6 +197,20 @@ def rule_barrier(ctx: Ctx) -> None:  # noqa: C901
     if gen_calls:
         awaited = isinstance(par.get(id(gen_calls[0])), ast.Await)
         ctx.add("2-barrier", inner, gen_calls[0], awaited, "each generation is awaited inside the loop" if awaited else "a generation is started without being awaited: the next generation reads results that are not there yet", key="await-in-loop")
+    # Future.set_result wakes the waiters of result() BEFORE it runs the done-callbacks: a store written from a callback is not
+    # covered by the barrier (the next generation may read it before it is there)
+    from ..flow import callable_targets
+
+    n_cb = 0
+    for f in P.functions_in(RUN):
+        for c in [c for c in walk_no_nested(f.node) if isinstance(c, ast.Call) and isinstance(c.func, ast.Attribute) and c.func.attr == "add_done_callback" and c.args]:
+            n_cb += 1
+            tgts = callable_targets(ctx, f, c.args[0])
+            writers = [t for t in tgts if any(r.rsplit(".", 1)[-1] in ("_update_array", "dump", "_dump_single_output", "__setitem__") and ("_storage_array" in r or r.startswith(RUN + ".")) for r in ctx.cg.reachable(t.qualname) | {t.qualname})]
+            ctx.tri("2-barrier", f, c, bool(tgts) and not writers, bool(writers), f"`{norm(c)[:60]}`: the callback stores nothing",
+                    f"`{norm(c)[:70]}` stores results from a done-callback ({writers[0].name if writers else ''}): result() returns to the waiting driver BEFORE the callbacks of the future run, "
+                    "so the barrier after a generation does not cover the store - the next generation (and the caller of map) can see elements missing", "callback not resolved", key=f"callback {norm(c.args[0])[:40]}")
+    ctx.add("2-barrier", RUN, "", True, f"{n_cb} done-callback registration(s) examined", key="callback-scan")
     for q, res in ((f"{RUN}._process_task", "_result"), (f"{RUN}._process_task_async", "_result_async")):
         f = P.func(q)
         d = Defs(f)
@@ -303,6 +317,65 @@ def rule_one_dump(ctx: Ctx) -> None:
                     fd_true.append(fn.qualname)
     extra = [q for q in fd_true if not q.startswith("pipefunc.map.adaptive.")]
     ctx.add("4-one-dump", "force_dump", "", not extra, "force_dump=True only from the learner path (which has no parent post-processing)" if not extra else f"force_dump is forced from {extra}: elements are dumped by the worker and again by the parent", key="force-dump-callers")
+
+
+def rule_own_backing_container(ctx: Ctx) -> None:
+    """Each output array is built with its OWN mutable backing container: a container created once and handed to every
+    array that a loop / comprehension builds makes the outputs of a multi-output function overwrite each other."""
+    P = ctx.prog
+    n = 0
+
+    def creates_container(v: ast.AST) -> bool:
+        if isinstance(v, (ast.Dict, ast.List, ast.Set, ast.DictComp, ast.ListComp, ast.SetComp)):
+            return True
+        if isinstance(v, ast.Call):
+            last = dotted(v.func).rsplit(".", 1)[-1] if dotted(v.func) else (v.func.attr if isinstance(v.func, ast.Attribute) else "")
+            if dotted(v.func) in ("dict", "list", "set", "collections.defaultdict", "defaultdict", "collections.OrderedDict", "OrderedDict"):
+                return True
+            # <manager>.dict() / .list(): a proxy of ONE server-side container
+            if isinstance(v.func, ast.Attribute) and last in ("dict", "list", "Queue", "Namespace") and "anager" in norm(v.func.value):
+                return True
+        return False
+
+    for f in P.functions_in("pipefunc.map._run_info"):
+        par = {id(c): p_ for p_ in ast.walk(f.node) for c in ast.iter_child_nodes(p_)}
+        for call in [c for c in ast.walk(f.node) if isinstance(c, ast.Call) and isinstance(c.func, ast.Name)]:
+            ty = ctx.cg.typer.expr(f, call.func)
+            is_storage_ctor = (ty.kind == "type" and any("_storage_array" in a.name for a in ty.args if a.kind == "cls")) or call.func.id == "storage_class"
+            if not is_storage_ctor:
+                continue
+            # the loop / comprehension that builds one array per output
+            x, rep = call, None
+            while id(x) in par:
+                x = par[id(x)]
+                if isinstance(x, (ast.ListComp, ast.GeneratorExp, ast.DictComp, ast.For)):
+                    rep = x
+                    break
+            if rep is None:
+                continue
+            n += 1
+            inside = {id(z) for z in ast.walk(rep)}
+            names = {a.id for a in call.args if isinstance(a, ast.Name)} | {k.value.id for k in call.keywords if isinstance(k.value, ast.Name)}
+            shared = []
+            for nm in sorted(names):
+                for st in walk_no_nested(f.node):
+                    if id(st) in inside:
+                        continue
+                    if isinstance(st, ast.Assign):
+                        for t in st.targets:
+                            if isinstance(t, ast.Name) and t.id == nm and creates_container(st.value) and not any(k.arg is None and isinstance(k.value, ast.Name) and k.value.id == nm for k in call.keywords):
+                                shared.append((st, nm))
+                            # kwargs["mapping"] = <container>  ...  cls(..., **kwargs)
+                            if isinstance(t, ast.Subscript) and isinstance(t.value, ast.Name) and t.value.id == nm and creates_container(st.value) and any(k.arg is None and isinstance(k.value, ast.Name) and k.value.id == nm for k in call.keywords):
+                                shared.append((st, f"{nm}[{norm(t.slice)}]"))
+                    if isinstance(st, ast.Assign) and isinstance(st.value, ast.Dict) and any(isinstance(t, ast.Name) and t.id == nm for t in st.targets) and any(k.arg is None and isinstance(k.value, ast.Name) and k.value.id == nm for k in call.keywords):
+                        for kk, vv in zip(st.value.keys, st.value.values):
+                            if creates_container(vv):
+                                shared.append((st, f"{nm}[{norm(kk) if kk is not None else '**'}]"))
+            ctx.add("5-shared", f, shared[0][0] if shared else call, not shared, f"`{norm(call)[:60]}`: no mutable container is created once and handed to every array" if not shared else
+                    f"`{norm(shared[0][0])[:70]}` creates ONE container outside the loop and `{norm(call)[:50]}` hands it to every array it builds: the outputs of a multi-output function share their backing store, "
+                    "each element is overwritten by the last output written (every reader gets that output's values for all outputs)", key=f"own-container {f.name}")
+    ctx.floor("5-shared.own-container", n, 1)
 
 
 def rule_shared(ctx: Ctx) -> None:
@@ -572,7 +645,7 @@ def rule_no_process_memo(ctx: Ctx) -> None:
 
 
 def check(ctx: Ctx) -> None:
-    for rule in (rule_mirror, rule_barrier, rule_placement, rule_one_dump, rule_shared, rule_executor, rule_picklable_state, rule_no_shared_write, rule_reads_are_stateless, rule_parent_stores_single_outputs, rule_no_process_memo):
+    for rule in (rule_mirror, rule_barrier, rule_placement, rule_one_dump, rule_shared, rule_own_backing_container, rule_executor, rule_picklable_state, rule_no_shared_write, rule_reads_are_stateless, rule_parent_stores_single_outputs, rule_no_process_memo):
         ctx.run(rule)
 
 
